@@ -70,7 +70,7 @@ OUTER_BINDINGS = [("none", ""), ("outer-class", "class X:\n    class N: ...")]
 # reference forms: (label, expression text, needs-binding-of)
 REFS = [("X", "X"), ("X.N", "X.N")]
 DOTTED_REFS = [("import pkg.a", "pkg.a.X"), ("import pkg.a", "pkg.a.X.N"), ("import ext", "ext.Y"), ("import pkg.sub.b", "pkg.sub.b.X")]
-SITES = ["mod-annotation", "mod-value", "base", "decorator", "class-annotation", "method-annotation", "method-default", "nested-class-annotation", "init-self-value"]
+SITES = ["mod-annotation", "mod-value", "base", "decorator", "decorator-callable", "class-annotation", "method-annotation", "method-default", "nested-class-annotation", "init-self-value"]
 # imports that bind a *module* (own submodule, sibling, parent's other child), with and without renaming: (positions, statement, reference)
 _INIT, _A, _SUBI, _B = "pkg/__init__.py", "pkg/a.py", "pkg/sub/__init__.py", "pkg/sub/b.py"
 MODULE_IMPORTS = [
@@ -105,7 +105,7 @@ def all_cases(tier):
                     for site in SITES:
                         if ob[0] != "none" and site != "nested-class-annotation":
                             continue
-                        if cb[0] != "none" and site in ("mod-annotation", "mod-value", "base", "decorator"):
+                        if cb[0] != "none" and site in ("mod-annotation", "mod-value", "base", "decorator", "decorator-callable"):
                             continue
                         for ref in REFS:
                             yield (pos, tuple(b[0] for b in seq), cb[0], ob[0], site, ref[1])
@@ -155,6 +155,8 @@ def build_module(case):
         lines.append(f"class D({ref}): ...")
     elif site == "decorator":
         lines.append(f"def deco_passthrough(c):\n    return lambda f: f\n@deco_passthrough({ref})\ndef h(): ...")
+    elif site == "decorator-callable":
+        lines.append(f"@{ref}\ndef h2(): ...")  # the reference IS the decorator (never executed: judged through the mod-value twin)
     else:
         lines.append("class K:")
         if cbs:
@@ -215,7 +217,7 @@ def cpython_eval(case, root):
                 o = mod.v
             elif site == "base":
                 o = mod.D.__bases__[0]
-            elif site == "decorator":
+            elif site in ("decorator", "decorator-callable"):
                 return None  # evaluated like a module-level value; judged through the mod-value twin
             elif site == "class-annotation":
                 o = mod.K.__annotations__["v"]
@@ -251,6 +253,12 @@ def griffe_eval(griffe, case, root):
         expr = mod.members["D"].bases[0]
     elif site == "decorator":
         expr = mod.members["h"].decorators[0].value.arguments[0]
+    elif site == "decorator-callable":
+        deco = mod.members["h2"].decorators[0]
+        expr = deco.value
+        if not isinstance(expr, str) and deco.callable_path != expr.canonical_path:
+            # what the decorator object says it calls is what its own expression resolves to (after the load, not as of some moment during it)
+            return f"{deco.callable_path} (callable_path) != {expr.canonical_path} (canonical_path of the decorator expression)", str(expr), loader
     elif site == "class-annotation":
         expr = mod.members["K"].members["v"].annotation
     elif site == "method-annotation":
@@ -270,8 +278,8 @@ def run_case(griffe, acc, case):
     pos, mbs, cb, ob, site, ref = case
     with sandbox.scratch_dir("c04") as d:
         sandbox.write_tree(d, files_for(case))
-        twin = case if site != "decorator" else (pos, mbs, cb, ob, "mod-value", ref)
-        if site == "decorator":
+        twin = case if site not in ("decorator", "decorator-callable") else (pos, mbs, cb, ob, "mod-value", ref)
+        if site in ("decorator", "decorator-callable"):
             with sandbox.scratch_dir("c04t") as d2:
                 sandbox.write_tree(d2, files_for(twin))
                 exp = cpython_eval(twin, d2)
